@@ -51,6 +51,10 @@ func AmountFromFloat64(val float64, exp uint32) Amount {
 	return Amount{value: v, exp: exp}
 }
 
+// maxDecimals is the largest number of decimals an amount is written with,
+// and therefore read with.
+const maxDecimals = 1000
+
 // AmountFromString takes the provided string and tries to convert it
 // into an amount object. Strings must be in a simplified format with no
 // commas and a single `.` to separate the decimal places. Numbers are
@@ -81,6 +85,10 @@ func AmountFromString(val string) (Amount, error) {
 	if l == 2 {
 		if err := checkDigits(x[1]); err != nil {
 			return a, fmt.Errorf("invalid decimal number '%v', %w", val, err)
+		}
+		if len(x[1]) > maxDecimals {
+			// String gives up beyond this, so the text could not be written back
+			return a, fmt.Errorf("invalid decimal number '%v', more than %d decimals", val, maxDecimals)
 		}
 		e = uint32(len(x[1]))
 		digits += x[1]
@@ -312,7 +320,7 @@ func (a Amount) String() string {
 	if a.exp == 0 {
 		return fmt.Sprintf("%d", a.value)
 	}
-	if a.exp > 1000 {
+	if a.exp > maxDecimals {
 		return "NA"
 	}
 	s := ""
